@@ -189,7 +189,7 @@ theorem stepM_eff (h7 : fx.v7 = true) (hpa : ParentsAgree s d) (fuel : Nat) (hec
   obtain ⟨_, scb, sff, _, _⟩ := searchM_sound s fx d h7 fuel
   obtain ⟨_, kcb, _, _, kff⟩ := cmp_framesM s fx h7 fuel
   obtain ⟨_, fcb, _, _, _⟩ := ffp_framesM s fx h7 fuel
-  intro me ssid fm name c hc h1 hfm hap hok
+  intro me ssid fm name c hc h1 hfm hok
   simp only [betweenFieldsAndFragmentM]
   by_cases hcm : c.cmp.contains name = true
   · rw [if_pos hcm]
@@ -236,10 +236,29 @@ theorem stepM_eff (h7 : fx.v7 = true) (hpa : ParentsAgree s d) (fuel : Nat) (hec
         obtain ⟨⟨fm2, fr2⟩, c3⟩ := ra
         simp only at a1 a2 a3 a4 a5 af afl afk ⊢
         have hok3 : CmpOK d c3 ssid me := hok2.mono af.2.1 (fun k h => by rw [afl]; exact h)
+        have hkc : ∀ k, k ∈ keysM c3 ↔ k = Sum.inr (ssid, name, me) ∨ k ∈ keysM c := fun k => by
+          rw [afk]; exact mem_keysM_ffp_cons (c := { c with cmp := name :: c.cmp })
         by_cases hid : (ssid == fid) = true
-        · exact absurd (by simpa using hid : ssid = fid).symm (hap name (.refl _) on fid fsels hg')
+        · -- `if field_map is fragment_field_map: return`: the triple is in the memo, nothing is claimed about it
+          have hidd : ssid = fid := by simpa using hid
+          rw [if_pos hid]
+          intro hcr
+          have hcrc : c.crash = none := by rw [← af.2.2.1]; exact hcr
+          refine ⟨by rw [af.2.1]; exact List.mem_cons_self .., hcrc, fun k hk => (hkc k).mpr (Or.inr hk),
+            fun _ M hM => ⟨fun k hk => ?_, fun CF _ n hn => ?_⟩⟩
+          · rcases (hkc k).mp hk with rfl | hk
+            · refine Or.inr ?_
+              show FOblM s d M (ssid, name, me)
+              intro hne
+              exact absurd hidd.symm (hne on fid fsels hg')
+            · exact Or.inl hk
+          · rw [af.2.1] at hn
+            rcases List.mem_cons.mp hn with rfl | hn
+            · exact Or.inr (Or.inr (hM _ ((hkc _).mpr (Or.inl rfl))))
+            · exact Or.inl hn
         · rw [if_neg hid]
           intro hcr
+          have hidn : fid ≠ ssid := fun e => hid (by simp [e])
           have hci1 : CI s d (conflictsBetweenM s fx fuel me fm fm2 c3).2 := (scb me fm fm2 c3 a1 h1 a2).1
           have hok4 : CmpOK d (conflictsBetweenM s fx fuel me fm fm2 c3).2 ssid me :=
             hok3.mono (kcb me fm fm2 c3) (fcb me fm fm2 c3)
@@ -248,18 +267,17 @@ theorem stepM_eff (h7 : fx.v7 = true) (hpa : ParentsAgree s d) (fuel : Nat) (hec
             (fun M _ n => FCov d M me ssid n)
             (fun fr hfr c hc => ⟨⟨(sff me ssid fm fr c hc.1 h1).1, cmpOK_frame s fx d h7 fuel me ssid fm fr c hc.1 h1 hc.2⟩,
               kff me ssid fm fr c,
-              fun h => heff me ssid fm fr c hc.1 h1 hfm (hap.step (a5 fr hfr)) hc.2 h⟩)
+              fun h => heff me ssid fm fr c hc.1 h1 hfm hc.2 h⟩)
             _ ⟨hci1, hok4⟩ hcr
           have g1 := hecb me fm fm2 c3 a1 h1 a2 g2.crash
           have hcmp1 : (conflictsBetweenM s fx fuel me fm fm2 c3).2.cmp = name :: c.cmp := by rw [kcb, af.2.1]
           refine ⟨lm _ (by rw [hcmp1]; exact List.mem_cons_self ..), ?_⟩
-          have hkc : ∀ k, k ∈ keysM c3 ↔ k = Sum.inr (ssid, name, me) ∨ k ∈ keysM c := fun k => by
-            rw [afk]; exact mem_keysM_ffp_cons (c := { c with cmp := name :: c.cmp })
           refine ((g1.seq g2).pre (by rw [af.2.2.1]) (fun k hk => (hkc k).mpr (Or.inr hk))
             (fun _ M hM r k hk => ?_)).imp (fun M hM r CF hCF n hn => ?_)
           · rcases (hkc k).mp hk with rfl | hk
             · refine Or.inr ?_
               show FOblM s d M (ssid, name, me)
+              intro _
               obtain ⟨r1, r2⟩ := r
               refine ⟨fun sels p rn e1 e2 hs ha c1 d2 => r1 rn e1 e2 (hfm sels p rn e1 hs ha c1) (a3 rn e2 d2),
                 fun h hh => ?_⟩
